@@ -13,7 +13,9 @@ RULE = ('cases = {SCML, SCML_Supervised} x basis {triplet_diffs, lda '
         '{5e-3, 0.1, 1} x batch_size {1, 5, 10} x max_iter {50, 300} x '
         'output_iter {7, 50, max_iter} x integer seeds x triplet sets. The '
         'basis and weights handed to the components builder and the '
-        'triplets handed to the solver are captured by wrapped methods; a '
+        'triplets handed to the solver are captured by wrapped methods (for '
+        'SCML_Supervised they are compared with a brute-force construction '
+        'of the documented k_genuine x k_impostor neighbour triplets); a '
         'reference model re-executes the documented stochastic dual '
         'averaging sequentially with the same random draws on distance '
         'differences computed directly from the formed triplets, evaluating '
@@ -104,7 +106,8 @@ def required(tier):
   n = 25 if q else 350
   return {'C15.captured': n, 'C15.weights-match-scheme': n,
           'C15.weights-nonneg': n, 'C15.M-is-combination': n, 'C15.psd': n,
-          'C15.rows-and-warning': n, 'C15.generated-basis': n // 2}
+          'C15.rows-and-warning': n, 'C15.generated-basis': n // 2,
+          'C15.supervised-triplets': n // 4}
 
 
 def reference_weights(T, basis, p, seed):
@@ -151,6 +154,44 @@ def reference_weights(T, basis, p, seed):
   return best_w, nearest, tie
 
 
+def _documented_triplets(j, T, X, y, kg, ki, det):
+  """The triplets SCML_Supervised solves for are the documented ones: every
+  point with its k_genuine nearest same-class points and its k_impostor
+  nearest points of other classes (brute force; ties at a selection boundary
+  make the set ambiguous and are skipped)."""
+  if len(np.unique(X, axis=0)) != len(X):
+    j.skip('C15.supervised-triplets', 'duplicate-rows')
+    return
+  index = {X[i].tobytes(): i for i in range(len(X))}
+  try:
+    got = set((index[t[0].tobytes()], index[t[1].tobytes()],
+               index[t[2].tobytes()]) for t in T)
+  except KeyError:
+    j.violated('C15.supervised-triplets',
+               dict(det, why='a triplet holds a point that is not a row of X'))
+    return
+  want = set()
+  D2 = ((X[:, None, :] - X[None, :, :]) ** 2).sum(-1)
+  for a in range(len(X)):
+    if y[a] < 0:
+      continue
+    same = np.where((y == y[a]) & (np.arange(len(X)) != a))[0]
+    other = np.where((y != y[a]) & (y >= 0))[0]
+    gs = same[np.argsort(D2[a, same], kind='stable')]
+    os_ = other[np.argsort(D2[a, other], kind='stable')]
+    kg_, ki_ = min(kg, len(gs)), min(ki, len(os_))
+    for arr, k_ in ((gs, kg_), (os_, ki_)):
+      if k_ < len(arr) and D2[a, arr[k_ - 1]] >= D2[a, arr[k_]] * (1 - 1e-12):
+        j.skip('C15.supervised-triplets', 'neighbour-tie')
+        return
+    for b in gs[:kg_]:
+      for c in os_[:ki_]:
+        want.add((a, int(b), int(c)))
+  j.check('C15.supervised-triplets', got == want,
+          dict(det, n_got=len(got), n_documented=len(want),
+               missing=sorted(want - got)[:3], extra=sorted(got - want)[:3]))
+
+
 def run_case(spec, j):
   name = spec['est']
   ds = common.dataset(spec['ds'])
@@ -181,6 +222,10 @@ def run_case(spec, j):
   if T.ndim != 3:
     j.skip('C15', 'triplets-not-formed')
     return
+  if name == 'SCML_Supervised':
+    _documented_triplets(j, T, np.asarray(ds['X'], dtype=float),
+                         np.asarray(ds['y']), p['k_genuine'],
+                         p['k_impostor'], det)
   # generated bases: n_basis unit-norm rows
   for tag, B, nb in _cap['gen']:
     want = p['n_basis']
